@@ -916,6 +916,12 @@ impl<'a> Gen<'a> {
             "unchecked_return" => {
                 let name = if self.lkm { "add_mtd_device" } else { *self.r.pick(&["chdir", "atoi", "access", "fgets"]) };
                 b = call!(b, name, &[ArgV::Const(self.rodata + 0x40), ArgV::Const(0)]);
+                // the value is kept somewhere (callee-saved register, stack slot) but never looked at
+                match self.r.below(3) {
+                    0 => self.i_mov_reg(&mut b, sv, ret),
+                    1 => { let v = reg(ret, p.ptr); self.i_store(&mut b, p.sp, -0x38, v); }
+                    _ => {}
+                }
                 // overwrite the return register without ever looking at it
                 self.i_mov_const(&mut b, ret, 0);
             }
@@ -1472,7 +1478,10 @@ impl<'a> Gen<'a> {
                 if loopy || r.chance(30) { planned[r.below(planned.len() as u64) as usize] } else { planned[(bi + 1 + r.below((planned.len() - bi) as u64) as usize).min(planned.len() - 1)] }
             };
             let choice = if last { if self.r.chance(85) { 0 } else { self.r.below(10) } } else { 1 + self.r.below(if self.cally { 14 } else { 11 }) };
-            let do_return = choice == 0 || (fall.is_none() && self.r.chance(70));
+            // early exits: a block in the middle of the function returns as well, so functions have
+            // several return sites
+            let early_return = !last && self.r.chance(8);
+            let do_return = choice == 0 || early_return || (fall.is_none() && self.r.chance(70));
             match (choice, fall) {
                 _ if do_return => {
                     // epilogue + return
